@@ -2,7 +2,8 @@
 from proto_engine import *
 
 MODULE = "Feox.Props.C19"
-THEOREMS = ['Feox.C19.ownership_partition', 'Feox.C19.every_worker_owns_a_shard', 'Feox.C19.tick_wakes_every_owner', 'Feox.C19.tick_wakes_retirer', 'Feox.C19.unwoken_worker_has_nothing', 'Feox.C19.geometry', 'Feox.C19.real_geometry_partition']
+THEOREMS = ['Feox.C19.ownership_partition', 'Feox.C19.every_worker_owns_a_shard', 'Feox.C19.tick_wakes_every_owner', 'Feox.C19.tick_wakes_retirer', 'Feox.C19.unwoken_worker_has_nothing', 'Feox.C19.geometry', 'Feox.C19.real_geometry_partition',
+            'Feox.C19.wstep_inv', 'Feox.C19.process_drains', 'Feox.C19.marked_shard_has_a_request']
 
 
 def run(ctx):
